@@ -315,7 +315,8 @@ def r08g(ctx):
     fn = repo.member(A, "receive")
     c = f"{A}.receive"
     cnt = paths.seq(strip_doc(fn), lambda n: is_call(n, name="append", recv="self.signals"))
-    ctx.check(cnt.get("fall") == (1, 1) and all(v[1] == 0 for k, v in cnt.items() if k == "raise"), "R08g", c, "exactly one stored signal per successful receive, none when it raises",
+    normal = [v for k, v in cnt.items() if k in ("fall", "return")]
+    ctx.check(normal and all(v == (1, 1) for v in normal) and all(v[1] == 0 for k, v in cnt.items() if k == "raise"), "R08g", c, "exactly one stored signal per successful receive (falling off the end or returning), none when it raises",
               str(cnt), key_detail="append count", loc=ctx.loc("pyrex.antenna", fn))
     app = calls(fn, name="append", recv="self.signals")
     ok = False
